@@ -61,7 +61,10 @@ def sub_view(proj, si, names_map=None):
     b = proj["bufs"][t["buf"]] if 0 <= t["buf"] < proj["nbuf"] else {"sha": "oob", "len": -2}
     tens.append((t["dt"], tuple(t["scale"]), tuple(t["zp"]), t["qd"] if len(t["scale"]) > 1 else 0, tuple(t["shape"]), b["sha"], b["len"]))
   ops = [(o["code"], tuple(o["ins"]), tuple(o["outs"]), o["opts"]) for o in s["ops"]]
-  return {"ops": ops, "tensors": tens, "gins": s["gins"], "gouts": s["gouts"]}
+  # the signature exporting this subgraph (wherever it sits in the signature table): name -> tensor, in its own order
+  sig = [x for x in proj["sigs"] if x["sub"] == si]
+  sigv = [([list(e) for e in x["ins"]], [list(e) for e in x["outs"]]) for x in sig]
+  return {"ops": ops, "tensors": tens, "gins": s["gins"], "gouts": s["gouts"], "signature": sigv}
 
 
 def _impl_task(item):
@@ -103,7 +106,7 @@ def _impl_task(item):
   for si, p in enumerate(parts):
     sp = project.project(p["out_bytes"])
     a, b = sub_view(mp, si), sub_view(sp, 0)
-    for field in ("ops", "tensors", "gins", "gouts"):
+    for field in ("ops", "tensors", "gins", "gouts", "signature"):
       if a[field] != b[field]:
         out["problems"].append(("subgraph %d %s" % (si, field), "inside the pair %s, alone %s" % (str(a[field])[:300], str(b[field])[:300])))
   return out
@@ -184,7 +187,7 @@ def main():
   verdicts, ro = pipecheck.observe_with_tlc("C19_observed", obs)
   for i, out in enumerate(results):
     v = verdicts.get(idx.get(i))
-    if v is not None and not all(v[cname] for cname in ("inrange", "topo", "single", "names", "skelops", "modes")):
+    if v is not None and not all(v[cname] for cname in ("inrange", "topo", "single", "names", "skelops", "skelio", "skelsig", "skeltyp", "modes")):
       chk.violation("graph predicates false on the pair's result", {"property": "C19", "scenario": items[i][0], "clause": "graph", "verdict": v})
   chk.cov.update({
       "states": r.distinct + rs.distinct + rfp.distinct, "transitions": r.generated + rs.generated + rfp.generated,
